@@ -234,7 +234,9 @@ CHECKS = {
         "corruption space, seeded token mutations of the repository samples and seeded byte strings. Every input runs the "
         "AddressSanitizer + bounds build of the real naken_asm under a timeout; TLC accepts each run.",
    design_ref="DESIGN.md 4 C16",
-   note="The memory-error oracle is the sanitizer build, not the specification (stated in DESIGN.md 1). Timeouts 20-30 s.",
+   note="The memory-error oracle is the sanitizer build, not the specification (stated in DESIGN.md 1). Timeouts 20-30 s. Six "
+        "option sets rotate over the cases (plain, -l, -type elf, -l -type srec, -optimize, -dump_symbols -dump_macros); "
+        "nesting resources are also tried at 8,192 and 300,000 levels.",
    technique="TLA+ resource/capacity model + process protocol; spec-enumerated boundary inputs replayed into the "
              "sanitizer-built executable; TLC trace acceptor"),
  "C17": dict(
@@ -246,8 +248,8 @@ CHECKS = {
         "sanitizer build of the real naken_util (-disasm or a scripted session ending in quit) under a 15 s timeout; TLC "
         "accepts each run (terminates normally, no signal, no sanitizer report).",
    design_ref="DESIGN.md 4 C17",
-   note="Only the msp430 CPU selection is used for the file cases; scripts always end with quit (EOF behaviour of the readline "
-        "build is described in DESIGN.md).",
+   note="Every fourth file case and every fifth session runs under one of 20 other CPU selections (the rest under msp430); "
+        "scripts always end with quit (EOF behaviour of the readline build is described in DESIGN.md).",
    technique="TLA+ file/field and session enumeration; cases applied to real files and replayed into the "
              "sanitizer-built naken_util; TLC trace acceptor"),
  "C18": dict(
